@@ -609,12 +609,18 @@ def callsite_obligations(rep, prefix='C05.drv.pre'):
     import ast as _ast
     from vlib import repo as _repo
     n = 0
-    for modname in ('mindsdb_sql',):
+    try:
+        mods = sorted(set(_repo.all_repo_modules(('mindsdb_sql',))) | {'mindsdb_sql'})
+    except Exception:
+        mods = ['mindsdb_sql']
+    for modname in mods:
         try:
             tree = _repo.module_ast(modname)
         except Exception as e:
-            rep.undecided(f'{prefix}.callsites', 'pysym', f'{type(e).__name__}: {e}', function=modname)
-            return
+            if modname == 'mindsdb_sql':
+                rep.undecided(f'{prefix}.callsites', 'pysym', f'{type(e).__name__}: {e}', function=modname)
+                return
+            continue
         for fn in [x for x in _ast.walk(tree) if isinstance(x, (_ast.FunctionDef, _ast.AsyncFunctionDef))]:
             for call in [c for c in _ast.walk(fn) if isinstance(c, _ast.Call) and isinstance(c.func, _ast.Attribute) and c.func.attr == 'parse' and c.args]:
                 recv = _ast.unparse(c_ := call.func.value)
